@@ -310,6 +310,20 @@ func genC08(r *rand.Rand, tier string, st *Stats) []Case {
 	for _, s := range c08Seeds {
 		addCase(&cases, seen, st, "seed", s)
 	}
+	// regex bracket classes whose atoms and range bounds are escapes: every (lower bound, upper bound) pair from plain
+	// characters and the escape kinds, positive and negated, alone and followed by a quantifier and more pattern
+	bounds := []string{"a", "z", "+", "_", "\\d", "\\D", "\\s", "\\S", "\\w", "\\W", "\\t", "\\n", "\\x41", "\\]", "\\\\", "\\-", "\\b", "\\0"}
+	for _, neg := range []string{"", "^"} {
+		for _, lo := range bounds {
+			addCase(&cases, seen, st, "regex-class-escapes", "find all @/["+neg+lo+"]/")
+			for _, hi := range bounds {
+				addCase(&cases, seen, st, "regex-class-escapes", "find all @/["+neg+lo+"-"+hi+"]/")
+				if neg == "" {
+					addCase(&cases, seen, st, "regex-class-escapes", "find all 'id=' @/[x"+lo+"-"+hi+"y]*z/")
+				}
+			}
+		}
+	}
 	// process loops whose body moves TYPES around between variables (swap / rotate through a temporary, retype a
 	// variable from its own value, assign in one branch only): whatever a checker does with a loop — one pass, several,
 	// a fixed point — it has to come back
